@@ -166,6 +166,10 @@ pub fn random_cfg(r: &mut Rng) -> Config {
     c
 }
 
+thread_local! {
+    pub static IN_FMT: std::cell::Cell<bool> = std::cell::Cell::new(false);
+}
+
 pub enum Outcome {
     Ok(String),
     ParseError,
@@ -180,9 +184,11 @@ pub fn fmt(code: &str, c: Config, range: Option<Range>, verify: bool) -> Outcome
     } else {
         OutputVerification::None
     };
+    IN_FMT.with(|f| f.set(true));
     let res = std::panic::catch_unwind(std::panic::AssertUnwindSafe(|| {
         stylua_lib::format_code(code, c, range, v)
     }));
+    IN_FMT.with(|f| f.set(false));
     match res {
         Ok(Ok(s)) => Outcome::Ok(s),
         Ok(Err(stylua_lib::Error::ParseError(_))) => Outcome::ParseError,
@@ -204,10 +210,19 @@ pub fn fm_version(v: LuaVersion) -> full_moon::LuaVersion {
     v.into()
 }
 
+/// full_moon parse, panic-safe (full_moon itself can panic, e.g. `a << b` under Luau)
+pub fn parse(code: &str, v: LuaVersion) -> Option<full_moon::ast::Ast> {
+    IN_FMT.with(|f| f.set(true));
+    let r = std::panic::catch_unwind(|| full_moon::parse_fallible(code, fm_version(v)).into_result());
+    IN_FMT.with(|f| f.set(false));
+    match r {
+        Ok(Ok(a)) => Some(a),
+        _ => None,
+    }
+}
+
 pub fn parses(code: &str, v: LuaVersion) -> bool {
-    full_moon::parse_fallible(code, fm_version(v))
-        .into_result()
-        .is_ok()
+    parse(code, v).is_some()
 }
 
 /// Parallel map over `0..n` on big-stack threads; results returned in index order.
